@@ -36,6 +36,7 @@ type Case struct {
 	Dials    int          `json:"dials"`
 	FreshTr  bool         `json:"fresh_transport,omitempty"` // a new UTransport (new socket) per dial, same spec value
 	CloseBy  string       `json:"close_by,omitempty"`        // "" = the client closes each connection; "server" = the server does, the client re-dials at once
+	Observed string       `json:"observed,omitempty"`        // "" | log | trace | both: debug logging on / Config.Tracer set (output dropped)
 	SchedUs  int          `json:"sched_us,omitempty"`        // virtual microseconds that pass at every schedule point of the library (quic.VerifSchedHook)
 	Server   ServerCfg    `json:"server"`
 	RTTms    int          `json:"rtt_ms"`
@@ -62,6 +63,7 @@ func genCase(t *rapid.T) Case {
 	c := Case{Seed: rapid.Uint64().Draw(t, "seed")}
 	bases := specgen.BaseNames()
 	c.Spec = specgen.Gen(t, specgen.Options{Bases: bases, CHLen: chlen})
+	c.Observed = rapid.SampledFrom([]string{"", "", "", "", "", "", "", "", "", "log", "trace", "both"}).Draw(t, "observed")
 	c.Dials = rapid.SampledFrom([]int{1, 1, 2, 3}).Draw(t, "dials")
 	c.FreshTr = rapid.Bool().Draw(t, "fresh")
 	if rapid.IntRange(0, 2).Draw(t, "closeby") == 0 {
@@ -215,6 +217,15 @@ func runCase(c Case, u *vf.Unit) *vf.Verdict {
 	}
 	ut := newUT(0)
 	cconf := &quic.Config{DisablePathMTUDiscovery: true, MaxIdleTimeout: 20 * time.Second, HandshakeIdleTimeout: 10 * time.Second}
+	if c.Observed == "trace" || c.Observed == "both" {
+		cconf.Tracer = sim.DiscardTracer
+	}
+	if c.Observed == "log" || c.Observed == "both" {
+		defer sim.DebugLogging()()
+	}
+	if c.Observed != "" {
+		u.Class("observability-on")
+	}
 	data := pattern(c.Seed, c.EchoSize)
 	retransmitted := false
 	for i := 0; i < c.Dials; i++ {
